@@ -18,6 +18,13 @@ let parse_prog (s : string) : lk_calls =
       eat ')';
       let rest = calls () in
       LkCall (b, rest)
+    end else if peek () = 'E' then begin
+      (* the real coap_handle_event(): wrapper + coap_lock_callback_ret + event handler *)
+      incr pos; eat '(';
+      let a = calls () in
+      eat ')';
+      let rest = calls () in
+      LkCall (LkCb (LkKeepRet, a, LkRet), rest)
     end else LkDone
   and items () : lk_items =
     match peek () with
